@@ -178,6 +178,7 @@ def sibling(ctx):
             'rule.env', 'rule.cmds']
         ctx.ob(R, 'command-env|' + fq, ok, f.node,
                '{} does not run global_env(rule.env, rule.cmds)'.format(fq))
+    G.env_export(ctx, R)
     # make/ninja `phony` and files
     fm = repo.func(K + 'make_command')
     fn_ = repo.func(K + 'ninja_command')
@@ -201,6 +202,27 @@ def sibling(ctx):
         ctx.ob(R, 'deps-kwarg-under-gcc-flavor|' + fq, guarded, f.node,
                'the depfile argument is not passed under the gcc deps '
                'flavor')
+    # CompDB keeps every entry: a list, appended unconditionally, dumped whole
+    cdb = repo.cls('bfg9000.backends.compdb.writer:CompDB')
+    init = cdb.methods['__init__']
+    ok = any(isinstance(n, ast.Assign) and unparse(n.targets[0]) ==
+             'self._commands' and isinstance(n.value, ast.List)
+             for n in ast.walk(init))
+    ctx.ob(R, 'CompDB|commands-is-a-list', ok, init,
+           'compile_commands entries are not kept in a list (entries with '
+           'the same key would replace each other)')
+    ap = cdb.methods['append']
+    from ..cfg import EXIT, build as build_cfg
+    g = build_cfg(ap)
+    adds = [g.stmt_of(c) for c in Q.calls(ap, nested=False)
+            if unparse(c) == 'self._commands.append(entry)']
+    ok = len(adds) == 1 and g.must_pass(adds, EXIT)
+    ctx.ob(R, 'CompDB.append|every-entry-kept', ok, ap,
+           'an entry can be dropped or replace an earlier one')
+    wr = cdb.methods['write']
+    ok = any(unparse(c).startswith('json.dump(self._commands,')
+             for c in Q.calls(wr))
+    ctx.ob(R, 'CompDB.write|dumps-all', ok, wr, '')
     # compdb writes one entry per handled edge, others skipped silently
     w = repo.func('bfg9000.backends.compdb.writer:write')
     ok = 'if type(e) in _rule_handlers' in unparse(w.node) and \
@@ -217,7 +239,7 @@ def _dep_roots(h):
             continue
         (o, op), deps, oos = G.DEP_ARGS[k]
         for nm, pos in deps:
-            out |= ro.of(G.call_arg(c, nm, pos))
+            out |= ro.clean(G.call_arg(c, nm, pos))
     return out
 
 
